@@ -763,6 +763,15 @@ def execute_http(frontend, prefix, template, toks, attrs, audit_paths, colls=(CA
                 obs = impl.get(path, inm, method=kind)
                 lines.append("%s %s %s | %s" % (kind, enc(path), enc(inm), obs))
                 continue
+            elif kind == "WARM":
+                # the same indexable calendar-query, asked often enough for the store to start (and then use)
+                # its index: read-only requests, nothing to tell the model
+                q = ('<?xml version="1.0"?><C:calendar-query xmlns:D="DAV:" xmlns:C="urn:ietf:params:xml:ns:caldav">'
+                     '<D:prop><D:getetag/></D:prop><C:filter><C:comp-filter name="VCALENDAR"><C:comp-filter name="VEVENT">'
+                     '<C:prop-filter name="SUMMARY"/></C:comp-filter></C:comp-filter></C:filter></C:calendar-query>').encode()
+                for _ in range(8):
+                    impl.srv.request("REPORT", impl.target(op[1] + "/"), {"Depth": "1", "Content-Type": "text/xml"}, q)
+                continue
             elif kind == "SYNC":
                 _, cpath, which = op
                 if cpath not in known_colls:
@@ -783,7 +792,20 @@ def execute_http(frontend, prefix, template, toks, attrs, audit_paths, colls=(CA
                     foreign = {"foreign": ["f" * 40, "0123456789abcdef0123456789abcdef01234567"],
                                "malformed": ["sync-token-1", "http://example.org/ns/sync/12", cur_sha[:39],
                                              cur_sha.upper(), '"%s"' % cur_sha, cur_sha + "0", " "]}[which]
-                    for t in foreign:
+                    if which == "foreign" and cpath in (CAL, BOOK):
+                        # tokens the *other* default collection has issued (and answered a report for, so that
+                        # whatever it remembers about them is in place): the two differ in their metadata
+                        # file, which is part of the tree, so no tree of one is ever a tree of the other
+                        other = BOOK if cpath == CAL else CAL
+                        if other in known_colls:
+                            o_obs, o_sha = impl.tags(other)
+                            if o_sha is not None:
+                                impl.sync(other, o_sha)
+                                impl.sync(other, None)
+                                own = {s for s, _ in issued.get(cpath, [])}
+                                foreign = foreign + [s for s in [o_sha] + [s for s, _ in issued.get(other, [])][-2:]
+                                                     if s not in own and s != sha]
+                    for t in dict.fromkeys(foreign):
                         lines.append("SYNC %s !%s | %s" % (enc(cpath), urllib.parse.quote(t, safe=""),
                                                            impl.sync(cpath, t)))
                 continue
@@ -884,6 +906,10 @@ def gen_http_template(rng, toks, length, profile="mixed"):
     bad = [toks.tok(b) for b in rng.sample(INVALID_ICAL, 2)]
     ops = []
     paths = [CAL + "/" + n for n in NAMES[CAL]] + [BOOK + "/" + n for n in NAMES[BOOK]]
+    if profile == "git":
+        # a name in decomposed form (NFD, what macOS/iOS clients send): the working-tree file, the index
+        # entry and the tree entry must all carry the name as the client wrote it
+        paths.append(CAL + "/re\u0301union-cafe\u0301.ics")
     if profile in ("git", "mixed"):
         ops.append(("MKCOL", "/user/extra"))
         paths += ["/user/extra/e1.ics", "/user/extra/e2.ics", "/user/extra/a.ics"]   # a.ics: a namesake
@@ -907,6 +933,13 @@ def gen_http_template(rng, toks, length, profile="mixed"):
                 cal_ = p_.startswith(CAL)
                 ops.append(("PUT", p_, "text/calendar" if cal_ else "text/vcard",
                             rng.choice(icals) if cal_ else rng.choice(cards), "none", "none"))
+    if profile in ("mixed", "tags", "git"):
+        # the calendar's query index is switched on by repeated queries; afterwards members that are not
+        # calendar objects (a card, which the index cannot describe) are created and replaced in it
+        ops += [("WARM", CAL), ("PUT", CAL + "/note.vcf", "text/vcard", cards[0], "none", "none"),
+                ("POST", CAL, "text/vcard", cards[1]),
+                ("PUT", CAL + "/note.vcf", "text/vcard", cards[1], "none", "none")]
+        paths.append(CAL + "/note.vcf")
     if profile == "sync" and len(icals) >= 2:
         # every history starts with one member created, changed and removed, a report after each step
         ops += [("PUT", CAL + "/a.ics", "text/calendar", icals[0], "none", "none"), ("SYNC", CAL, "all"),
